@@ -192,12 +192,13 @@ def render(dot, predicate: Predicate, node_nr):
 
 
 def render_lazy_references(dot, node_predicate_mapping) -> None:
-    def find_in_mapping(lookup: Predicate) -> str:
-        return first(node for node, predicate in node_predicate_mapping.items() if predicate == lookup)
+    def find_in_mapping(lookup: Predicate) -> str | None:
+        return first((node for node, predicate in node_predicate_mapping.items() if predicate == lookup), None)
 
     def add_dashed_line(node: str, lookup: Predicate) -> None:
-        found = find_in_mapping(lookup)
-        dot.edge(node, found, style="dashed")
+        # the referenced predicate may lie outside the rendered tree (e.g. in the other cluster): no edge then
+        if found := find_in_mapping(lookup):
+            dot.edge(node, found, style="dashed")
 
     frame = inspect.currentframe()
 
